@@ -1,10 +1,299 @@
-/- C06 — PUSH/PULL.  Property theorems (placeholder until the proofs land). -/
+/-
+  C06 — PUSH/PULL.  Property theorems about the models Model/Push.lean and Model/Pull.lean,
+  for ALL event sequences (`reach evs` = state after applying `evs` to the initial state).
+  Lemmas live in Proofs/Push.lean and Proofs/Pull.lean.
+-/
 import NngModel.Model.Push
 import NngModel.Model.Pull
 import NngModel.Spec.Pipeline
+import NngModel.Proofs.Push
+import NngModel.Proofs.Pull
+import NngModel.Proofs.PullJudge
+import NngModel.Proofs.PushJudge
 namespace Nng.C06
+open Nng Nng.Proto
 
 /-- the protocol numbers used by the models are those of the C source -/
 theorem proto_ids : Nng.Push.peerPull = Nng.Proto.protoId 5 1 ∧ Nng.Pull.peerPush = Nng.Proto.protoId 5 0 := by decide
+
+/-! ## PUSH -/
+section Push
+open Nng.Push
+
+/-- ghost ids are unique: the i-th offered message carries gid i -/
+theorem push_gids_unique (evs : List Ev) :
+    (reach evs).offered.map (·.gid) = List.range (reach evs).nsend ∧
+    ((reach evs).offered.map (·.gid)).Nodup := by
+  have h := (reach_inv evs).offGid
+  exact ⟨h, h ▸ List.nodup_range⟩
+
+/-- P1 conservation: every accepted message is on the wire, still buffered, or was discarded
+    whole by a send-buffer shrink / close — nothing else, and nothing twice. -/
+theorem push_conservation (evs : List Ev) :
+    (reach evs).accepted.Perm
+      ((reach evs).wire.map (·.2) ++ (reach evs).wq ++ (reach evs).dropped) := by
+  rw [List.perm_iff_count]; intro x
+  have := (reach_inv evs).cons x
+  simp only [List.count_append]; omega
+
+/-- P4 (first half): every offered message is in exactly one of: accepted, returned to the
+    caller with a failed send, or still parked in the waiting-senders queue. -/
+theorem push_offered_partition (evs : List Ev) :
+    (reach evs).offered.Perm
+      ((reach evs).accepted ++ (reach evs).returned ++ (reach evs).aq.map (·.msg)) := by
+  rw [List.perm_iff_count]; intro x
+  have := (reach_inv evs).off x
+  simp only [List.count_append]; omega
+
+/-- P4 in terms of ids: each id below `nsend` occurs exactly once among accepted, returned, parked -/
+theorem push_offered_exactly_once (evs : List Ev) :
+    (((reach evs).accepted ++ (reach evs).returned ++ (reach evs).aq.map (·.msg)).map (·.gid)).Perm
+      (List.range (reach evs).nsend) := by
+  rw [← (reach_inv evs).offGid]
+  exact ((push_offered_partition evs).map _).symm
+
+/-- accepted messages are pairwise distinct (as ghost-identified messages) -/
+theorem push_accepted_nodup (evs : List Ev) : ((reach evs).accepted.map (·.gid)).Nodup := by
+  have h := (push_offered_exactly_once evs).nodup_iff.2 List.nodup_range
+  simp only [List.map_append, List.nodup_append] at h
+  exact h.1.1
+
+/-- P3 order: what is on the wire followed by what is buffered is a subsequence of the
+    acceptance order -/
+theorem push_order (evs : List Ev) :
+    ((reach evs).wire.map (·.2.gid) ++ (reach evs).wq.map (·.gid)).Sublist
+      ((reach evs).accepted.map (·.gid)) := by
+  have := ((reach_inv evs).order).map (·.gid)
+  simp only [List.map_append, List.map_map] at this
+  exact this
+
+/-- P3 per connection: the messages carried by pipe `p` are in acceptance order -/
+theorem push_order_per_pipe (evs : List Ev) (p : Nat) :
+    (((reach evs).wire.filter (·.1 == p)).map (·.2.gid)).Sublist ((reach evs).accepted.map (·.gid)) := by
+  have h1 : (((reach evs).wire.filter (·.1 == p)).map (·.2.gid)).Sublist ((reach evs).wire.map (·.2.gid)) :=
+    List.filter_sublist.map _
+  exact (h1.trans (List.sublist_append_left _ _)).trans (push_order evs)
+
+/-- P2 at most one puller, no duplication: no message is handed to the transport twice
+    (neither on the same pipe nor on two pipes) -/
+theorem push_no_duplication (evs : List Ev) : ((reach evs).wire.map (·.2.gid)).Nodup :=
+  ((List.sublist_append_left _ _).trans (push_order evs)).nodup (push_accepted_nodup evs)
+
+/-- P4 (second half): a completion emitted for a send leaves the message with the caller
+    iff it reports an error.  (`recv` on a PUSH socket completes with ENOTSUP and carries no
+    message; `abort a 0` is API misuse: the C code then completes the send with result 0 and
+    the message still attached — the model mirrors that.) -/
+theorem push_completion_msgback (evs : List Ev) (ev : Ev) (hr : isRecv ev = false) (ha : isAbort0 ev = false)
+    (a rv : Nat) (msg : Option WMsg) (mb : Bool)
+    (h : Out.done a rv msg mb ∈ (step (reach evs) ev).2) : (mb = true ↔ rv ≠ 0) :=
+  step_out hr ha _ h
+
+/-- back-pressure: with no peer ready and the send buffer full, a send does not touch the
+    accepted / buffered / wire / dropped histories; it fails at once with NNG_EAGAIN
+    (non-blocking) or NNG_ETIMEDOUT (zero timeout) leaving the message with the caller, or
+    parks the sender. -/
+theorem push_backpressure (s : State) (c : Option Nat) (a : Nat) (m : WMsg) (mode : Mode)
+    (hopen : s.opened = true) (hcl : s.closed = false) (hfree : ∀ pk ∈ s.aq, pk.aio ≠ a)
+    (hpl : s.pl = []) (hfull : s.wqCap ≤ s.wq.length) :
+    let r := step s (.send c a m mode)
+    r.1.accepted = s.accepted ∧ r.1.wire = s.wire ∧ r.1.wq = s.wq ∧ r.1.dropped = s.dropped ∧
+    (match failNow mode with
+     | some rv => r.2 = [.done a rv none true] ∧ r.1.aq = s.aq ∧ r.1.returned = s.returned ++ [⟨s.nsend, m⟩]
+     | none => r.2 = [] ∧ r.1.aq = s.aq ++ [⟨a, ⟨s.nsend, m⟩, deadlineOf s.now mode⟩] ∧ r.1.returned = s.returned) := by
+  have hb : (s.aq.any (·.aio == a)) = false := by
+    rw [List.any_eq_false]; intro x hx; simpa using hfree x hx
+  have hnl : ¬ s.wq.length < s.wqCap := by omega
+  simp only [step, hopen, hcl, stepLive, evSend, hb, hpl, hnl]
+  cases hf : failNow mode <;> simp
+
+/-- the only immediate failures are NNG_EAGAIN (non-blocking) and NNG_ETIMEDOUT (zero timeout) -/
+theorem push_failNow (mode : Mode) :
+    failNow mode = (match mode with | .nb => some Err.eagain | .ms 0 => some Err.etimedout | _ => none) := by
+  unfold failNow; rfl
+
+/-- P5 no stall: while a pipe is ready nothing is buffered and nobody waits -/
+theorem push_no_stall (evs : List Ev) :
+    (reach evs).pl ≠ [] → (reach evs).wq = [] ∧ (reach evs).aq = [] := (reach_inv evs).plEmpty
+
+/-- P5 bounded buffer -/
+theorem push_buffer_bounded (evs : List Ev) : (reach evs).wq.length ≤ (reach evs).wqCap :=
+  (reach_inv evs).bound
+
+/-- P5 senders wait only when the buffer is full — unless a send-buffer resize made room
+    while senders were parked (ghost flag `slack`; see `push_park_slack_reachable`) -/
+theorem push_park_only_when_full (evs : List Ev) :
+    (reach evs).closed = false → (reach evs).slack = false →
+    (reach evs).aq ≠ [] → (reach evs).wqCap ≤ (reach evs).wq.length := (reach_inv evs).park
+
+/-- the full-strength statement (without the `slack` proviso) -/
+def push_park_only_when_full_statement : Prop :=
+  ∀ evs : List Ev, (reach evs).closed = false → (reach evs).aq ≠ [] → (reach evs).wqCap ≤ (reach evs).wq.length
+
+def slackTrace : List Ev :=
+  [.openSock "push" false, .send none 0 ⟨[], [1]⟩ .inf, .setopt none "send-buffer" "int" 4]
+
+/-- ... is false for the model (and the code): growing the send buffer does not move parked
+    senders into it -/
+theorem push_park_slack_reachable : ¬ push_park_only_when_full_statement := by
+  intro h
+  have := h slackTrace (by decide) (by decide)
+  revert this; decide
+
+/-- P6 (feeds C15): the pollable `writable` flag is exact in every open state -/
+theorem push_writable_iff (evs : List Ev) (hcl : (reach evs).closed = false) :
+    (reach evs).writable = true ↔ ((reach evs).wq.length < (reach evs).wqCap ∨ (reach evs).pl ≠ []) :=
+  (reach_inv evs).wr hcl
+
+/-- P7 a non-blocking send never parks: unless the harness refused the line, the aio is not
+    queued afterwards and its completion is among the step's outputs -/
+theorem push_nonblocking_never_parks (evs : List Ev) (c : Option Nat) (a : Nat) (m : WMsg) :
+    Refused (step (reach evs) (.send c a m .nb)).2 ∨
+      ((∀ pk ∈ (step (reach evs) (.send c a m .nb)).1.aq, pk.aio ≠ a) ∧
+        ∃ rv mb, Out.done a rv none mb ∈ (step (reach evs) (.send c a m .nb)).2) :=
+  step_send_nb _ c a m
+
+/-- a parked aio is queued at most once -/
+theorem push_parked_aios_distinct (evs : List Ev) : ((reach evs).aq.map (·.aio)).Nodup :=
+  (reach_inv evs).aqNodup
+
+/-- JUDGE (PUSH): for every event sequence with pairwise distinct message bodies (and without
+    the API misuse `abort aio 0`) the trace produced by the model is accepted by the executable
+    C06 trace predicate `pushJudge` — the same predicate the check runs on the implementation's
+    traces: no completion without a send, message back iff failure, nothing wired twice or to a
+    busy pipe, nothing wired that was not accepted, no overtaking except past messages dropped
+    by a buffer shrink, no stall while a peer is idle, bounded buffering, non-blocking sends
+    complete at once. -/
+theorem push_judge (evs : List Ev) (hd : DistinctBodies evs) (hn : Nng.Push.NoAbort0 evs) :
+    Nng.PipelineSpec.pushJudge (Nng.Push.traceOf {} evs) = none := push_judge_ok evs hd hn
+
+end Push
+
+/-! ## PULL -/
+section Pull
+open Nng.Pull
+
+/-- ghost ids: the i-th arrival carries gid i -/
+theorem pull_gids_unique (evs : List Ev) :
+    (reach evs).arrived.map (·.gid) = List.range (reach evs).narrive := (reach_inv evs).gids
+
+/-- L1 conservation: every message that arrived was delivered, is held by a pipe, or was
+    discarded because its pipe closed — nothing else -/
+theorem pull_conservation (evs : List Ev) :
+    (reach evs).arrived.Perm
+      ((reach evs).delivered ++ heldMsgs (reach evs).pipes ++ (reach evs).discarded) := by
+  rw [List.perm_iff_count]; intro x
+  have := (reach_inv evs).cons x
+  simp only [List.count_append]; omega
+
+/-- L1 only open pipes hold messages -/
+theorem pull_closed_pipe_holds_nothing (evs : List Ev) (pp : Pipe) (hm : pp ∈ (reach evs).pipes) :
+    pp.closed = true → pp.held = none := by
+  have h := reach_inv evs
+  exact ((h.wf pp.id pp (getP_of_mem (ids_nodup h.ids) hm))).2.1
+
+/-- L1 exactly once: no message is delivered twice -/
+theorem pull_exactly_once (evs : List Ev) : ((reach evs).delivered.map (·.gid)).Nodup := by
+  have h1 := ((pull_conservation evs).map (·.gid)).nodup_iff.1
+    (by rw [pull_gids_unique]; exact List.nodup_range)
+  simp only [List.map_append, List.nodup_append] at h1
+  exact h1.1.1
+
+/-- L2 per-connection order: what was delivered from pipe `p` is a prefix of what arrived on it -/
+theorem pull_order (evs : List Ev) (p : Nat) :
+    (reach evs).delivered.filter (·.pipe == p) <+: (reach evs).arrived.filter (·.pipe == p) := by
+  rw [(reach_inv evs).perPipe p, List.append_assoc]
+  exact List.prefix_append _ _
+
+/-- L2 precisely: arrivals on `p` = delivered, then the one message `p` holds, then the one
+    discarded when it closed -/
+theorem pull_order_exact (evs : List Ev) (p : Nat) :
+    (reach evs).arrived.filter (·.pipe == p) =
+      (reach evs).delivered.filter (·.pipe == p) ++ heldOf (reach evs).pipes p ++
+        (reach evs).discarded.filter (·.pipe == p) := (reach_inv evs).perPipe p
+
+/-- L3 a pipe has its receive armed iff it is open and holds no message -/
+theorem pull_armed_iff (evs : List Ev) (pp : Pipe) (hm : pp ∈ (reach evs).pipes) :
+    pp.armed = true ↔ (pp.closed = false ∧ pp.held = none) := by
+  have h := reach_inv evs
+  exact ((h.wf pp.id pp (getP_of_mem (ids_nodup h.ids) hm))).1
+
+/-- L3 the ready list is exactly the set of open pipes holding a message, each once -/
+theorem pull_ready_list (evs : List Ev) :
+    (reach evs).pl.Nodup ∧
+    ∀ p, p ∈ (reach evs).pl ↔ ∃ pp ∈ (reach evs).pipes, pp.id = p ∧ pp.closed = false ∧ pp.held.isSome = true := by
+  have h := reach_inv evs
+  refine ⟨h.plNodup, fun p => ?_⟩
+  rw [h.plSpec p]
+  constructor
+  · rintro ⟨pp, h1, h2, h3⟩; exact ⟨pp, (getP_some h1).1, (getP_some h1).2, h2, h3⟩
+  · rintro ⟨pp, hm, rfl, h2, h3⟩; exact ⟨pp, getP_of_mem (ids_nodup h.ids) hm, h2, h3⟩
+
+/-- L3 pipe ids are their indices (so "pipe p" is unambiguous) -/
+theorem pull_pipe_ids (evs : List Ev) :
+    (reach evs).pipes.map (·.id) = List.range (reach evs).pipes.length := (reach_inv evs).ids
+
+/-- L4 a waiting receiver and an undelivered message never coexist -/
+theorem pull_no_waiting_with_message (evs : List Ev) : (reach evs).rq ≠ [] → (reach evs).pl = [] :=
+  (reach_inv evs).rqpl
+
+/-- L4 (feeds C15): the pollable `readable` flag is exact in every open state -/
+theorem pull_readable_iff (evs : List Ev) (hcl : (reach evs).closed = false) :
+    (reach evs).readable = true ↔ (reach evs).pl ≠ [] := (reach_inv evs).rd hcl
+
+/-- the model's defensive "invariant broken" output is unreachable -/
+theorem pull_model_total (evs : List Ev) (a : Nat) (mode : Mode) :
+    Out.other "model-invariant-broken" ∉ (evRecv (reach evs) a mode).2 :=
+  evRecv_not_broken (reach_inv evs) a mode
+
+/-- JUDGE (PULL): for every event sequence (without the API misuse `abort aio 0`) the trace
+    produced by the model is accepted by the executable C06 trace predicate `pullJudge` —
+    the same predicate the check runs on the implementation's traces.  No assumption on
+    message bodies is needed. -/
+theorem pull_judge (evs : List Ev) (hn : NoAbort0 evs) :
+    Nng.PipelineSpec.pullJudge (Nng.Pull.traceOf {} evs) = none := pull_judge_ok evs hn
+
+end Pull
+
+/-! ## non-vacuity: concrete histories reaching the interesting states -/
+section Examples
+open Nng.Push in
+/-- a PUSH socket with two pipes (both busy), a non-empty send buffer and a parked sender -/
+def pushDemo : List Ev :=
+  [.openSock "push" false, .setopt none "send-buffer" "int" 1, .pipeAdd 81, .pipeAdd 81,
+   .send none 0 ⟨[], [1]⟩ .inf, .send none 1 ⟨[], [2]⟩ .inf, .send none 2 ⟨[], [3]⟩ .inf,
+   .send none 3 ⟨[], [4]⟩ .inf]
+
+example : (Nng.Push.reach pushDemo).wq.length = 1 ∧ (Nng.Push.reach pushDemo).aq.length = 1 ∧
+    (Nng.Push.reach pushDemo).pipes.length = 2 ∧ (Nng.Push.reach pushDemo).wire.length = 2 ∧
+    (Nng.Push.reach pushDemo).writable = false := by decide
+
+/-- draining: a completed transport send takes the buffered message and takes in the parked sender -/
+example : ((Nng.Push.step (Nng.Push.reach pushDemo) (.sendDone 0 0)).2 =
+    [.rv 0, .psend 0 ⟨[], [3]⟩, .done 3 0 none false]) := by decide
+
+/-- back-pressure observed: a non-blocking send in that state fails with NNG_EAGAIN, message back -/
+example : (Nng.Push.step (Nng.Push.reach pushDemo) (.send none 4 ⟨[], [5]⟩ .nb)).2 =
+    [.done 4 Err.eagain none true] := by decide
+
+/-- a PULL socket with two pipes, one holding a message, one armed; then a receiver takes it -/
+def pullDemo : List Ev :=
+  [.openSock "pull" false, .pipeAdd 80, .pipeAdd 80, .recvDone 1 (.ok [7]), .recvDone 0 (.ok [8])]
+
+example : (Nng.Pull.reach pullDemo).pl = [1, 0] ∧ (Nng.Pull.reach pullDemo).readable = true ∧
+    (Nng.Pull.step (Nng.Pull.reach pullDemo) (.recv none 0 .nb)).2 = [.done 0 0 (some ⟨[], [7]⟩) false, .parm 1] := by
+  decide
+
+example : Nng.Pull.NoAbort0 pullDemo := by unfold Nng.Pull.NoAbort0; decide
+
+example : Nng.Push.DistinctBodies pushDemo ∧ Nng.Push.NoAbort0 pushDemo := by
+  unfold Nng.Push.DistinctBodies Nng.Push.NoAbort0; decide
+
+/-- the judges are not trivially `none`: they reject a trace that wires a message twice -/
+example : Nng.PipelineSpec.pushJudge
+    [(.openSock "push" false, [.rv 0]), (.pipeAdd 81, [.pipe 0, .parm 0]),
+     (.send none 0 ⟨[], [1]⟩ .inf, [.done 0 0 none false, .psend 0 ⟨[], [1]⟩]),
+     (.sendDone 0 0, [.rv 0, .psend 0 ⟨[], [1]⟩])] ≠ none := by decide
+
+end Examples
 
 end Nng.C06
